@@ -31,8 +31,8 @@ def rule_a(ctx):
   p = idx.func(VL + 'KeyPath.parse')
   structural = set()
   for n in ast.walk(p.node):
-    if isinstance(n, ast.Compare) and isinstance(n.left, ast.Name) and n.left.id == 'ch' \
-        and isinstance(n.ops[0], ast.Eq) and A.const_str(n.comparators[0]):
+    if isinstance(n, ast.Compare) and isinstance(n.left, ast.Name) \
+        and isinstance(n.ops[0], ast.Eq) and A.const_str(n.comparators[0]) and len(A.const_str(n.comparators[0])) == 1:
       structural.add(A.const_str(n.comparators[0]))
   h = idx.func(VL + 'KeyPath._has_special_chars')
   special = set()
@@ -49,8 +49,25 @@ def rule_a(ctx):
          f'containing the difference is printed unquoted and re-parsed as several keys')
   # path_str quotes when preserve_complex_keys and special
   ps = idx.func(VL + 'KeyPath.path_str')
-  t = A.unparse(ps.node, 3000)
-  ok = 'self._has_special_chars(key)' in t and "f'[{key}]'" in t and "s.append('.')" in t
+  # structure: one loop over the keys; a test that consults _has_special_chars on
+  # the loop key decides between a dotted and a bracketed (f'[{key}]') rendering
+  ok = False
+  for lp in [n for n in ast.walk(ps.node) if isinstance(n, ast.For)]:
+    tv = set(A.assigned_names(lp.target))
+    tests = [n for n in ast.walk(lp) if isinstance(n, ast.If) and any(
+        isinstance(c, ast.Call) and (A.call_name(c) or '').endswith('_has_special_chars') and c.args
+        and isinstance(c.args[0], ast.Name) and c.args[0].id in tv for c in ast.walk(n.test))]
+    def brackets(stmts):
+      return any(isinstance(j, ast.JoinedStr) and len(j.values) == 3 and A.const_str(j.values[0]) == '['
+                 and A.const_str(j.values[2]) == ']' and isinstance(j.values[1], ast.FormattedValue)
+                 and isinstance(j.values[1].value, ast.Name) and j.values[1].value.id in tv
+                 for st in stmts for j in ast.walk(st))
+    def dots(stmts):
+      return any(A.const_str(c) == '.' for st in stmts for c in ast.walk(st))
+    for t in tests:
+      if (brackets(t.orelse) and dots(t.body) and not brackets(t.body)) or \
+         (brackets(t.body) and dots(t.orelse) and not brackets(t.orelse)):
+        ok = True
   ctx.ob('C10.a', ps.fq, ok, 'str keys with special characters and non-str keys are bracketed; others dotted',
          ps.loc, 'path_str changed shape')
 
@@ -60,6 +77,7 @@ def _check_traverse(ctx, f, kinds):
   for the value bound by the same loop, and the container as parent."""
   problems = []
   found = set()
+  path_params = {}
   for lp in [n for n in ast.walk(f.node) if isinstance(n, ast.For)]:
     it = A.unparse(lp.iter)
     kind = None
@@ -85,9 +103,12 @@ def _check_traverse(ctx, f, kinds):
       problems.append(f'{kind}: recursive call without a KeyPath')
       continue
     kp = kps[0]
+    params = A.param_names(f.node)
     if not (len(kp.args) == 2 and isinstance(kp.args[0], ast.Name) and kp.args[0].id == tv[0]
-            and A.unparse(kp.args[1]) == 'root_path'):
-      problems.append(f'{kind}: child path is `{A.unparse(kp)}`, not KeyPath({tv[0]}, root_path)')
+            and isinstance(kp.args[1], ast.Name) and kp.args[1].id in params):
+      problems.append(f'{kind}: child path is `{A.unparse(kp)}`, not KeyPath({tv[0]}, <own path>)')
+    elif path_params.setdefault('p', kp.args[1].id) != kp.args[1].id:
+      problems.append(f'{kind}: child path is built on `{kp.args[1].id}`, other branches use `{path_params["p"]}`')
     # value argument is the one bound by the loop (or container[key])
     v0 = c.args[0]
     cont = it.split('.')[0].replace('enumerate(', '').rstrip(')')
@@ -108,7 +129,7 @@ def rule_b(ctx):
   # parent passed is the container itself
   for lp in [n for n in ast.walk(f.node) if isinstance(n, ast.For)]:
     for c in A.calls_in(lp):
-      if A.call_name(c) == 'traverse' and len(c.args) == 5 and A.unparse(c.args[4]) != 'x':
+      if A.call_name(c) == 'traverse' and len(c.args) == 5 and A.unparse(c.args[4]) != A.param_names(f.node)[0]:
         problems.append(f'parent passed is `{A.unparse(c.args[4])}`')
   ctx.ob('C10.b', f.fq, not problems,
          'symbolic traverse visits each child at KeyPath(key, root_path) with its container as parent '
@@ -118,14 +139,16 @@ def rule_b(ctx):
   ctx.ob('C10.b', f.fq, not problems,
          'utils.traverse visits each child at KeyPath(key, root_path)', f.loc, '; '.join(problems))
   f = idx.func(HI + 'transform.<locals>._transform')
-  t = A.unparse(f.node, 4000)
-  ok = '_transform(v, KeyPath(k, current_path))' in t and '_transform(v, KeyPath(i, current_path))' in t
-  ctx.ob('C10.b', f.fq, ok, 'transform recurses with KeyPath(key, current_path)', f.loc,
-         'child path construction changed')
+  problems = _check_traverse(ctx, f, ('dict', 'list'))
+  ctx.ob('C10.b', f.fq, not problems, 'transform recurses into each child with KeyPath(key, <current path>)', f.loc,
+         '; '.join(problems))
   # pre/post visitors are called on (root_path, x[, parent]) of the node itself
   f = idx.func('pyglove.core.symbolic.base.traverse')
-  t = A.unparse(f.node, 6000)
-  ok = 'preorder_visitor_fn(root_path, x, parent)' in t and 'postorder_visitor_fn(root_path, x, parent)' in t
+  prm = A.param_names(f.node)   # (x, preorder_visitor_fn, postorder_visitor_fn, root_path, parent): public keywords
+  def visitor_ok(name):
+    cs = [c for c in A.calls_in(f.node) if A.call_name(c) == name]
+    return bool(cs) and all([A.unparse(a) for a in c.args] == ['root_path', prm[0], 'parent'] for c in cs)
+  ok = visitor_ok('preorder_visitor_fn') and visitor_ok('postorder_visitor_fn')
   ctx.ob('C10.b', f.fq + '#visitors', ok, 'visitors receive the node\'s own path, value and parent', f.loc,
          'visitor call arguments changed')
   # KeyPath(key, parent) appends the key to the parent's keys
@@ -168,18 +191,46 @@ def rule_c(ctx):
   ctx.ob('C10.c', f.fq, not problems, 'from_value parses only str; an int becomes KeyPath(int) unparsed',
          f.loc, '; '.join(problems))
   p = idx.func(VL + 'KeyPath.parse')
-  calls = [c for c in A.calls_in(p.node) if A.call_name(c) == '_append_key']
-  numeric = [c for c in calls if len(c.args) >= 3 and A.unparse(c.args[2]) == 'True']
+  # the nested helper that converts a segment to an int key (found by what it
+  # does, not by its name)
+  helpers = [n for n in ast.walk(p.node) if isinstance(n, ast.FunctionDef) and n is not p.node
+             and any(isinstance(c, ast.Call) and A.call_name(c) == 'int' for c in ast.walk(n))]
+  if len(helpers) != 1:
+    raise AnalysisError(f'KeyPath.parse: {len(helpers)} nested helpers convert a segment to int (expected 1)')
+  hn = helpers[0]
+  hparams = A.param_names(hn)
+  # the parameter that switches numeric conversion on: read by the test guarding int(...)
+  switch = None
+  for t in ast.walk(hn):
+    if isinstance(t, ast.If) and any(isinstance(c, ast.Call) and A.call_name(c) == 'int' for b in t.body for c in ast.walk(b)):
+      names = [x.id for x in ast.walk(t.test) if isinstance(x, ast.Name) and x.id in hparams]
+      flags_ = [nm for nm in names if not any(isinstance(a, ast.Attribute) and isinstance(a.value, ast.Name) and a.value.id == nm
+                                              for a in ast.walk(t.test))]
+      switch = flags_[0] if flags_ else None
+      guard_test = t.test
+  calls = [c for c in A.calls_in(p.node) if A.call_name(c) == hn.name]
+  def requests_numeric(c):
+    if switch is None:
+      return True
+    k = hparams.index(switch)
+    if len(c.args) > k:
+      return A.unparse(c.args[k]) != 'False'
+    return any(kw.arg == switch and A.unparse(kw.value) != 'False' for kw in c.keywords)
+  numeric = [c for c in calls if requests_numeric(c)]
   problems = []
   if len(numeric) != 1:
     problems.append(f'{len(numeric)} call sites request numeric conversion')
   else:
-    # that call is in the `ch == ']'` branch
+    # that call is in the closing-bracket branch
     g = C.cfg_of(p.node)
     node = [k for k in g.nodes if k.ast is not None and any(c is numeric[0] for c in k.calls())]
-    t = [k for k in g.nodes if k.kind == 'test' and A.unparse(k.ast) == "ch == ']'"]
+    def is_close_test(k):
+      a = k.ast
+      return k.kind == 'test' and isinstance(a, ast.Compare) and len(a.ops) == 1 and isinstance(a.ops[0], ast.Eq) \
+          and any(A.const_str(x) == ']' for x in [a.left] + a.comparators)
+    t = [k for k in g.nodes if is_close_test(k)]
     if t and node:
-      blocked = {(t[0].id, m.id, l) for m, l in t[0].succ if l == 'true'}
+      blocked = {(tt.id, m.id, l) for tt in t for m, l in tt.succ if l == 'true'}
       seen, _ = g.reach(g.entry, blocked_edges=blocked, follow_exc=False)
       if node[0].id in seen:
         problems.append('numeric conversion reachable outside the closing-bracket branch')
@@ -188,11 +239,17 @@ def rule_c(ctx):
   ctx.ob('C10.c', p.fq + '#numeric', not problems,
          'only a bracketed segment is converted to an int key; dotted segments stay strings', p.loc,
          '; '.join(problems))
-  h = idx.func(VL + 'KeyPath.parse.<locals>._append_key')
-  t = A.unparse(h.node, 1000)
-  ok = "key.lstrip('-').isdigit()" in t and 'int(key)' in t
-  ctx.ob('C10.c', h.fq, ok, 'numeric conversion accepts an optional leading minus sign (negative indices)',
-         h.loc, 'numeric test changed')
+  def strips_minus_then_isdigit(e):
+    for c in ast.walk(e):
+      if isinstance(c, ast.Call) and isinstance(c.func, ast.Attribute) and c.func.attr == 'isdigit':
+        inner = c.func.value
+        if isinstance(inner, ast.Call) and isinstance(inner.func, ast.Attribute) and inner.func.attr == 'lstrip' \
+            and inner.args and A.const_str(inner.args[0]) == '-':
+          return True
+    return False
+  ok = switch is not None and strips_minus_then_isdigit(guard_test)
+  ctx.ob('C10.c', p.fq + '#minus', ok, 'numeric conversion accepts an optional leading minus sign (negative indices)',
+         f'{p.module.relpath}:{hn.lineno}', 'numeric test changed')
 
 
 def rule_d(ctx):
@@ -258,8 +315,8 @@ def rule_e(ctx):
     m = c.methods.get(name)
     if m is None:
       continue
-    t = A.unparse(m.node, 3000)
-    ok = 'copy' in t or 'KeyPathSet(' in t
+    ok = any((A.call_name(x) or '').split('.')[-1] in ('copy', 'deepcopy', 'KeyPathSet', 'clone')
+             for x in A.calls_in(m.node))
     ctx.ob('C10.e', m.fq, ok, f'{name} operates on a copy, not on self', m.loc, f'{name} no longer copies')
 
 
@@ -268,8 +325,44 @@ def rule_f(ctx):
   f = idx.func(HI + 'try_listify_dict_with_int_keys')
   g = C.cfg_of(f.node)
   tests = [A.unparse(k.ast) for k in g.nodes if k.kind == 'test']
-  lo = any(t.replace(' ', '') in ('min_key==0', '0==min_key') for t in tests)
-  hi = any('max_key' in t and 'len(src) - 1' in t for t in tests)
+  # names of the locals holding min(keys) / max(keys), whatever they are called
+  def locals_from(fn_name):
+    out = {fn_name + '('}
+    for n in ast.walk(f.node):
+      if isinstance(n, ast.Assign) and isinstance(n.value, ast.Call) and A.call_name(n.value) == fn_name:
+        out |= set(A.assigned_names(n.targets[0]))
+      if isinstance(n, ast.Assign) and isinstance(n.value, ast.Tuple) and isinstance(n.targets[0], ast.Tuple):
+        for tg, v in zip(n.targets[0].elts, n.value.elts):
+          if isinstance(v, ast.Call) and A.call_name(v) == fn_name and isinstance(tg, ast.Name):
+            out.add(tg.id)
+    return out
+  mins, maxs = locals_from('min'), locals_from('max')
+  # running minimum / maximum kept by a loop: `if ... L > key: L = key` / `L < key`
+  for n in ast.walk(f.node):
+    if isinstance(n, ast.If) and len(n.body) == 1 and isinstance(n.body[0], ast.Assign) \
+        and isinstance(n.body[0].targets[0], ast.Name) and isinstance(n.body[0].value, ast.Name):
+      L, K = n.body[0].targets[0].id, n.body[0].value.id
+      for c in ast.walk(n.test):
+        if isinstance(c, ast.Compare) and len(c.ops) == 1:
+          l, r = sides(c) if False else (A.unparse(c.left), A.unparse(c.comparators[0]))
+          gt = isinstance(c.ops[0], (ast.Gt, ast.GtE)); lt = isinstance(c.ops[0], (ast.Lt, ast.LtE))
+          if (l, r) == (L, K) and gt or (l, r) == (K, L) and lt:
+            mins.add(L)
+          if (l, r) == (L, K) and lt or (l, r) == (K, L) and gt:
+            maxs.add(L)
+  cmp_nodes = [k.ast for k in g.nodes if k.kind == 'test']
+  cmps = [c for t in cmp_nodes for c in ast.walk(t) if isinstance(c, ast.Compare) and len(c.ops) == 1]
+  def sides(c):
+    return A.unparse(c.left), A.unparse(c.comparators[0])
+  def mentions(txt, names):
+    return any(txt == n or txt.startswith(n) for n in names)
+  lo = any(isinstance(c.ops[0], (ast.Eq, ast.NotEq)) and (
+      (mentions(sides(c)[0], mins) and sides(c)[1] == '0') or (mentions(sides(c)[1], mins) and sides(c)[0] == '0'))
+      for c in cmps)
+  hi = any(isinstance(c.ops[0], (ast.Eq, ast.NotEq)) and (
+      (mentions(sides(c)[0], maxs) and 'len(' in sides(c)[1] and '- 1' in sides(c)[1]) or
+      (mentions(sides(c)[1], maxs) and 'len(' in sides(c)[0] and '- 1' in sides(c)[0]))
+      for c in cmps)
   ctx.ob('C10.f', f.fq, lo and hi,
          'an int-keyed dict is converted to a list only when its keys are exactly 0..n-1 '
          '(lower AND upper bound tested)', f.loc,
